@@ -47,7 +47,8 @@ def x_std_dumps(I, args, kwargs, node):
     I.ghost.setdefault("std_dumps_kwargs", []).append(dict(kwargs))
     if not I.choose(std_ok(obj), "stdlib_dumps_ok"):
         raise PyRaise(I.make_exc("TypeError", V.VStr("Object is not JSON serializable")), "TypeError")
-    if kwargs:
+    effective = {k: v for k, v in kwargs.items() if not (k == "indent" and V.ctor_name(z3.simplify(v)) == "none")}
+    if effective:           # (indent=None is the stdlib's default: the same text as without the option)
         return V.VStr(I.fresh("std_text_with_options", S))
     t = std_text(obj)
     I.assume(z3.Not(z3.Contains(t, NL)))                # default separators, no indent: no raw line break (audited)
@@ -65,6 +66,7 @@ def x_orjson_loads(I, args, kwargs, node):
 def x_std_loads(I, args, kwargs, node):
     s = args[0]
     I.ghost.setdefault("std_loads_args", []).append(s)
+    I.ghost.setdefault("std_loads_kwargs", []).append(dict(kwargs))
     if not I.choose(V.is_str(s), "std_loads_arg_is_str"):
         # stdlib json.loads also accepts bytes (detects the encoding); the library never relies on that
         if I.choose(V.is_bytes(s), "std_loads_arg_is_bytes"):
@@ -79,11 +81,13 @@ class Dumps(Contract):
     key = f"{FASTJSON}::dumps"
     prop = "C17"
 
-    def __init__(self, has_orjson):
+    def __init__(self, has_orjson, explicit_none=False):
         self.has_orjson = has_orjson
+        self.explicit_none = explicit_none      # dumps(obj, indent=None): "no indentation" said explicitly (pydantic-less
+                                                # model_dump_json passes it) must be the same compact encoding
 
     def name(self, clause):
-        return f"C17.dumps.{clause}[orjson={'yes' if self.has_orjson else 'no'}]"
+        return f"C17.dumps.{clause}[orjson={'yes' if self.has_orjson else 'no'}{',indent=None' if self.explicit_none else ''}]"
 
     @property
     def covers(self):
@@ -92,7 +96,7 @@ class Dumps(Contract):
     def setup(self, I):
         I.ctx.global_overrides = {("chuk_mcp.protocol.fast_json", "HAS_ORJSON"): V.VBool(self.has_orjson)}
         self.obj = I.fresh("obj")
-        return [self.obj], {}
+        return [self.obj], ({"indent": V.NONE} if self.explicit_none else {})
 
     def post(self, I, result):
         obj = self.obj
@@ -108,7 +112,9 @@ class Dumps(Contract):
         I.oblige(self.name("returns_the_codec_text_decoded_as_utf8"), result == V.VStr(want), watch={"obj": obj})
         I.oblige(self.name("encoding_is_one_ndjson_frame"), z3.And(V.is_str(result), z3.Not(z3.Contains(Val.s(result), NL))))
         for kw in I.ghost.get("std_dumps_kwargs", []):
-            I.oblige(self.name("stdlib_called_with_the_same_options"), z3.BoolVal(kw == {}))
+            same = (kw == {}) if not self.explicit_none else \
+                (set(kw) <= {"indent"} and all(V.ctor_name(z3.simplify(v)) == "none" for v in kw.values()))
+            I.oblige(self.name("stdlib_called_with_the_same_options"), z3.BoolVal(bool(same)))
 
     def post_exc(self, I, e):
         # encoding may only fail when the stdlib codec cannot encode the value either
@@ -149,6 +155,10 @@ class Loads(Contract):
         I.oblige(self.name("returns_the_codec_value_of_the_same_text"), result == want)
         for a in I.ghost.get("std_loads_args", []):
             I.oblige(self.name("stdlib_receives_the_text_as_str"), a == V.VStr(self.text))
+        for kw in I.ghost.get("std_loads_kwargs", []):
+            # the codec contract (each parser inverts each printer) is about the PLAIN parsers: hooks such as parse_int /
+            # parse_float / object_hook change what the stdlib returns
+            I.oblige(self.name("stdlib_parser_called_without_value_changing_hooks"), z3.BoolVal(not kw))
 
     def post_exc(self, I, e):
         I.oblige(self.name(f"fails_only_when_no_backend_can_parse[{e.cls_name}]"),
@@ -212,7 +222,7 @@ class C17(Check):
         from checks import C05
         # "every encoded message is exactly one NDJSON frame" is only useful if the reader frames on '\n' alone (the
         # fast backend writes U+0085/U+2028/U+2029 raw): the stdio reader's framing contract (C05) is re-verified here
-        return [Dumps(True), Dumps(False), Loads(True, "str"), Loads(True, "bytes"), Loads(False, "str"),
+        return [Dumps(True), Dumps(False), Dumps(True, True), Dumps(False, True), Loads(True, "str"), Loads(True, "bytes"), Loads(False, "str"),
                 Loads(False, "bytes"), C05.StdoutReader()]
 
     def lemmas(self):
